@@ -393,6 +393,20 @@ def _child_scenario(note_fd, sc, scdir):
     if pre == "sentinel":
         with open(out, "wb") as fh:
             fh.write(SENTINEL)
+    elif pre in ("symlink", "dangling", "hardlink"):
+        # the output path is a link: to an existing file elsewhere (a failed run must
+        # leave link and target alone), to a file that does not exist yet (a failed run
+        # must not create it), or a second name of a file (same content under both names)
+        keep = os.path.join(scdir, "elsewhere")
+        os.makedirs(keep, exist_ok=True)
+        target = os.path.join(keep, "target.pqr")
+        if pre != "dangling":
+            with open(target, "wb") as fh:
+                fh.write(SENTINEL)
+        if pre == "hardlink":
+            os.link(target, out)
+        else:
+            os.symlink(target, out)
     elif isinstance(pre, dict):
         obs = execute_run({"cfg": pre["run"]}, scdir, "pre", note_fd, out_name=out_name)
         if obs["outcome"] != "ok":
@@ -656,6 +670,30 @@ def build_scenarios(cfg, prof, seed, tier, prev_cfg):
                                                                    "CRITICAL"])]
             runs.append(one_run)
         add("random", runs)
+    # --- 7. the output path is a link (symbolic to an existing file, symbolic to a file
+    #        that does not exist yet, hard link): early / late / pre-window failures must
+    #        leave link and target alone, a success must deliver R(cfg) through it
+    stages = P["stages"]
+    for j, pre in enumerate(("symlink", "dangling", "hardlink")):
+        if stages:
+            add("linked-output", [{"cfg": cfg, "faults": [
+                {"k": "stage", "stage": stages[0][0], "occ": 1, "when": "entry",
+                 "exc": "ValueError"}]}], pre=pre)
+            add("linked-output", [{"cfg": cfg, "faults": [
+                {"k": "stage", "stage": stages[-1][0], "occ": stages[-1][1], "when": "return",
+                 "exc": "ValueError"}]}], pre=pre)
+            mid = stages[(len(stages) * (j + 1)) // 4]
+            add("linked-output", [{"cfg": cfg, "entry": ("cli", "main_driver", "cli_module")[j],
+                                   "faults": [
+                {"k": "stage", "stage": mid[0], "occ": 1, "when": "return",
+                 "exc": "MemoryError"}]}], pre=pre)
+        if lo is not None:
+            add("linked-output", [{"cfg": cfg, "faults": [{"k": "kill", "event": "LINE",
+                                                          "at": lo - 1}]}], pre=pre)
+        add("linked-output", [{"cfg": cfg, "faults": []},
+                              {"cfg": cfg, "faults": [{"k": "exc", "event": "LINE",
+                                                       "at": max(1, n_line // 2),
+                                                       "exc": "KeyboardInterrupt"}]}], pre=pre)
     return sc
 
 
@@ -909,13 +947,17 @@ def trigger_scenarios(quick=False):
     count = [0]
 
     def t(name, cfg, note="", faults=None):
-        pres = ("absent", "sentinel", {"run": CFGS["hid-amber"]})
+        pres = ("absent", "sentinel", {"run": CFGS["hid-amber"]}, "symlink", "dangling",
+                "hardlink")
         entries = ("run_pdb2pqr", "cli", "cli_module")
         k = count[0]
         count[0] += 1
         combos = [(p, e) for p in range(3) for e in range(3)]
+        combos += [(3 + (k + e) % 3, e) for e in range(3)]
         if quick:
             combos = [(k % 3, k % 3), ((k + 1) % 3, (k + 2) % 3)]
+            if k % 4 == 0:
+                combos.append((3 + (k // 4) % 3, (k // 4) % 3))
         for pi, ei in combos:
             run = {"cfg": cfg, "entry": entries[ei], "expect": "fail", "want_ref": False}
             if faults:
